@@ -298,3 +298,25 @@ Definition gop_getitem (g : gop) : list item -> option tensor :=
 Record xgt_case := XT { xt_g : gop; xt_its : list item; xt_obs : option tensor }.
 Definition xgt_ok (c : xgt_case) : bool := otensor_eqb (gop_getitem (xt_g c) (xt_its c)) (xt_obs c).
 Definition bad_xgt (cs : list xgt_case) : list nat := bad xgt_ok cs 0.
+
+(* ---- L3 large indices: Kronecker product of factors given by a diagonal (is_diag = true: data = the diagonal) or by a
+        dense square matrix (data row-major), indexed far beyond 2^24 / 2^31; the digit arithmetic is evaluated in Z *)
+Record klarge_case := KLC { kl_f : list (Z * bool * list Z); kl_rc : list (Z * Z); kl_obs : list Z }.
+Definition kl_entry (f : Z * bool * list Z) (r c : Z) : Z :=
+  let '(n, isd, d) := f in if isd then (if r =? c then nth (Z.to_nat r) d 0 else 0) else mat_at n d r c.
+Definition klarge_ok (c : klarge_case) : bool :=
+  let ns := map (fun f => fst (fst f)) (kl_f c) in
+  lz_eqb (map (fun '(r, k) => kron_get_indices ns ns (map kl_entry (kl_f c)) r k) (kl_rc c)) (kl_obs c).
+Definition bad_klarge (cs : list klarge_case) : list nat := bad klarge_ok cs 0.
+
+(* block operators with a diagonal base (value c_b on block b, block size m; interleaved: k blocks) and BatchRepeat of a
+   constant-diagonal base with `size` batch entries, at large indices *)
+Record blarge_case := BLC { bl_kind : nat; bl_m : Z; bl_c : list Z; bl_rc : list (Z * Z); bl_obs : list Z }.
+Definition blarge_ok (c : blarge_case) : bool :=
+  let base := fun b i j => if i =? j then nth (Z.to_nat b) (bl_c c) 0 else 0 in
+  lz_eqb (map (fun '(r, k) => match bl_kind c with
+                              | 0%nat => blockdiag_get_indices (bl_m c) (bl_m c) base r k
+                              | 1%nat => blockinterleaved_get_indices (Z.of_nat (length (bl_c c))) base r k
+                              | _ => nth (Z.to_nat (batchrepeat_index (Z.of_nat (length (bl_c c))) r)) (bl_c c) 0
+                              end) (bl_rc c)) (bl_obs c).
+Definition bad_blarge (cs : list blarge_case) : list nat := bad blarge_ok cs 0.
